@@ -91,8 +91,10 @@ class DistributeMapper(IdentityMapper):
                 else:
                     rest = 1
 
+                # the leading factors go through dist() as well: *rest* may have
+                # been distributed into a sum
                 result = self.collect(pymbolic.flattened_sum([
-                       pymbolic.flattened_product(leading) * dist(sumchild*rest)
+                       dist(pymbolic.flattened_product([*leading, sumchild, rest]))
                        for sumchild in sum.children
                        ]))
                 return result
